@@ -489,42 +489,57 @@ fn gen_ids(rng: &mut Rng, n: usize) -> Vec<u64> {
     ids
 }
 
+/// A handful of tiles, two of them `len` bytes long (equal length, same first / last 64 KiB, different middle),
+/// exact duplicates of one of them under other ids, and small tiles in between and behind.
+pub fn gen_huge_tiles(rng: &mut Rng, internal: u8, len: usize) -> Logical {
+    let a = rng.bytes(len);
+    let mut b = a.clone();
+    b[len / 2 + rng.usize(0, 100)] ^= 0x10;
+    let (a, b) = (Rc::new(a), Rc::new(b));
+    let small_len = rng.usize(1, 50);
+    let small = Rc::new(rng.bytes(small_len));
+    let mut tiles = BTreeMap::new();
+    let base = rng.below(1 << 30);
+    tiles.insert(base, a.clone());
+    tiles.insert(base + 1, small.clone());
+    tiles.insert(base + 3, b);
+    tiles.insert(base + 4, a.clone()); // duplicate of the first huge content, not adjacent
+    tiles.insert(base + 9, small);
+    tiles.insert(base + 10, a);
+    Logical {
+        tiles,
+        meta: gen_metadata(rng),
+        tile_type: rng.below(6) as u8,
+        tile_compression: rng.below(5) as u8,
+        internal_compression: internal,
+        min_zoom: rng.next() as u8,
+        max_zoom: rng.next() as u8,
+        center_zoom: rng.next() as u8,
+        coords: gen_coords(rng),
+        class: format!("HugeTiles/{len}"),
+    }
+}
+
 pub fn gen_logical(rng: &mut Rng, class: SizeClass, internal: u8) -> Logical {
     let (n, max_len, budget): (usize, u64, usize) = match class {
         SizeClass::Empty => (0, 1, 1),
         SizeClass::One => (1, 100 * 1024, 200 * 1024),
         SizeClass::Small => (rng.usize(2, 50), 100 * 1024, 2 << 20),
         SizeClass::Medium => (rng.usize(1000, 5000), 4096, 8 << 20),
-        SizeClass::Spill => (rng.usize(20_000, 60_000), 48, 8 << 20),
+        SizeClass::Spill => {
+            // half of the spilling archives hold k*4096 + r entries for small / extreme r (leaf chunking edge cases)
+            let n = if rng.chance(1, 2) {
+                rng.usize(5, 14) * 4096 + *rng.pick(&[0usize, 1, 2, 31, 63, 64, 100, 4095])
+            } else {
+                rng.usize(20_000, 60_000)
+            };
+            (n, 48, 8 << 20)
+        }
         SizeClass::HugeRegular | SizeClass::HugeTiles => (0, 1, 1),
     };
     if class == SizeClass::HugeTiles {
         let len = if rng.chance(1, 4) { (1usize << 24) + rng.usize(1, 5000) } else { (1usize << 20) + rng.usize(1, 70_000) };
-        let a = rng.bytes(len);
-        let mut b = a.clone();
-        b[len / 2 + rng.usize(0, 100)] ^= 0x10; // same length, same first / last 64 KiB, different middle
-        let (a, b) = (Rc::new(a), Rc::new(b));
-        let small = Rc::new(rng.bytes(rng.clone().usize(1, 50)));
-        let mut tiles = BTreeMap::new();
-        let base = rng.below(1 << 30);
-        tiles.insert(base, a.clone());
-        tiles.insert(base + 1, small.clone());
-        tiles.insert(base + 3, b);
-        tiles.insert(base + 4, a.clone()); // duplicate of the first huge content, not adjacent
-        tiles.insert(base + 9, small);
-        tiles.insert(base + 10, a);
-        return Logical {
-            tiles,
-            meta: gen_metadata(rng),
-            tile_type: rng.below(6) as u8,
-            tile_compression: rng.below(5) as u8,
-            internal_compression: internal,
-            min_zoom: rng.next() as u8,
-            max_zoom: rng.next() as u8,
-            center_zoom: rng.next() as u8,
-            coords: gen_coords(rng),
-            class: format!("HugeTiles/{len}"),
-        };
+        return gen_huge_tiles(rng, internal, len);
     }
     if class == SizeClass::HugeRegular {
         let n = *rng.pick(&[65_535u64, 65_536, 65_537, 70_000, 100_000, 131_073]);
@@ -700,7 +715,14 @@ pub fn gen_entries(rng: &mut Rng, n: usize, allow_leaf_ptrs: bool, wide: bool) -
             rng.log_range(1, 1 << 20) as u32
         };
         let offset: u64 = match if style == 3 { rng.below(3) } else { style } {
-            0 => next_off,
+            0 => {
+                if i > 0 && rng.chance(1, 16) {
+                    // k * 2^32 bytes behind the end of the previous entry (aliases "contiguous" under 32-bit arithmetic)
+                    next_off.saturating_add(rng.range(1, 3) << 32).min(1 << 61)
+                } else {
+                    next_off
+                }
+            }
             1 => {
                 if i > 0 && rng.chance(1, 3) {
                     let p: &REntry = &v[rng.usize(0, i - 1)];
@@ -811,6 +833,14 @@ pub struct ForeignOpts {
     /// keep the metadata small (workloads that open the same archive hundreds of times: the library
     /// parses metadata byte-wise through the codec, which costs ~100 ms per open for 300 KiB)
     pub small_metadata: bool,
+    /// directories that hold tile entries AND leaf pointers side by side
+    pub mixed_dirs: bool,
+    /// root directory at absolute offset 127 and the second leaf at offset 127 of the leaf section
+    /// (a leaf-section-relative offset that equals an ancestor's absolute offset)
+    pub alias_leaf_offset: bool,
+    /// Some(L): consecutive tile ids, run length 1, equal lengths L, contiguous offsets; only the last
+    /// entry has a run > 1 (the most regular directory a fully populated zoom range produces)
+    pub regular: Option<u32>,
 }
 
 /// Independent spec-level archive writer. Produces bytes + ground truth.
@@ -821,10 +851,16 @@ pub fn gen_foreign(rng: &mut Rng, o: &ForeignOpts) -> Foreign {
     let mut entries: Vec<REntry> = Vec::with_capacity(n);
     let mut id: u64 = if rng.chance(1, 2) { 0 } else { rng.below(1 << 24) };
     // contents
-    let n_contents = if n == 0 { 0 } else { (n / 2).max(1) };
-    let mut lens: Vec<u32> = (0..n_contents).map(|_| rng.log_range(1, 300) as u32).collect();
+    let n_contents = if n == 0 {
+        0
+    } else if o.regular.is_some() {
+        n
+    } else {
+        (n / 2).max(1)
+    };
+    let mut lens: Vec<u32> = (0..n_contents).map(|_| o.regular.unwrap_or_else(|| rng.log_range(1, 300) as u32)).collect();
     if let Some(l) = lens.first_mut() {
-        if rng.chance(1, 8) {
+        if o.regular.is_none() && rng.chance(1, 8) {
             *l = 70_000; // one large content
         }
     }
@@ -867,7 +903,8 @@ pub fn gen_foreign(rng: &mut Rng, o: &ForeignOpts) -> Foreign {
     }
     let mut next_content = 0usize;
     for i in 0..n {
-        let ci = match o.offset_style {
+        let ci = match if o.regular.is_some() { 9 } else { o.offset_style } {
+            9 => i,
             0 => {
                 // clustered: new content, or back-reference to an earlier one
                 if next_content < n_contents && (next_content == 0 || rng.chance(2, 3) || n - i <= n_contents - next_content) {
@@ -885,15 +922,25 @@ pub fn gen_foreign(rng: &mut Rng, o: &ForeignOpts) -> Foreign {
                 }
             }
         };
-        let run = if rng.chance(1, 5) { rng.range(2, 30) as u32 } else { 1 };
-        let length = if o.prefix_entries && lens[ci] > 1 && rng.chance(1, 4) { rng.range(1, u64::from(lens[ci]) - 1) as u32 } else { lens[ci] };
+        let run = if o.regular.is_some() {
+            if i + 1 == n {
+                rng.range(2, 9) as u32
+            } else {
+                1
+            }
+        } else if rng.chance(1, 5) {
+            rng.range(2, 30) as u32
+        } else {
+            1
+        };
+        let length = if o.regular.is_none() && o.prefix_entries && lens[ci] > 1 && rng.chance(1, 4) { rng.range(1, u64::from(lens[ci]) - 1) as u32 } else { lens[ci] };
         entries.push(REntry {
             tile_id: id,
             offset: offs[ci],
             length,
             run_length: run,
         });
-        let gap = if rng.chance(2, 3) { 0 } else { rng.log_range(1, 1 << 16) };
+        let gap = if o.regular.is_some() || rng.chance(2, 3) { 0 } else { rng.log_range(1, 1 << 16) };
         id += u64::from(run) + gap;
     }
     // ---- directory tree
@@ -914,10 +961,24 @@ pub fn gen_foreign(rng: &mut Rng, o: &ForeignOpts) -> Foreign {
         let chunk = if lvl == 1 { o.leaf_entries.unwrap_or((level.len() / target_children).max(1)) } else { (level.len() / target_children).max(1) };
         let mut ptrs: Vec<REntry> = Vec::new();
         let mut i = 0;
+        let mut chunked = false;
         while i < level.len() {
-            let c = rng.usize((chunk / 2).max(1), chunk + chunk / 2 + 1).min(level.len() - i);
+            let mut c = rng.usize((chunk / 2).max(1), chunk + chunk / 2 + 1).min(level.len() - i);
+            if o.alias_leaf_offset && n_leaves == 0 {
+                c = c.min(3); // a first leaf shorter than 127 bytes
+            }
+            if o.mixed_dirs && rng.chance(1, 3) {
+                // keep a few entries inline in the parent directory, between the pointers
+                let k = rng.usize(1, 3).min(level.len() - i);
+                ptrs.extend_from_slice(&level[i..i + k]);
+                i += k;
+                continue;
+            }
             let list = &level[i..i + c];
-            if o.gaps && !o.align_gzip_leaves && rng.chance(1, 5) {
+            if o.alias_leaf_offset && n_leaves == 1 && leaf_section.len() < 127 {
+                let g = 127 - leaf_section.len();
+                leaf_section.extend(std::iter::repeat(0xEE).take(g));
+            } else if o.gaps && !o.align_gzip_leaves && rng.chance(1, 5) {
                 let g = rng.usize(1, 7);
                 leaf_section.extend(std::iter::repeat(0xEE).take(g));
             }
@@ -938,7 +999,12 @@ pub fn gen_foreign(rng: &mut Rng, o: &ForeignOpts) -> Foreign {
             leaf_first_ids.push(list[0].tile_id);
             leaf_section.extend_from_slice(&b);
             n_leaves += 1;
+            chunked = true;
             i += c;
+        }
+        if !chunked {
+            // everything stayed inline at this level
+            break;
         }
         level = ptrs;
         depth += 1;
@@ -994,7 +1060,7 @@ pub fn gen_foreign(rng: &mut Rng, o: &ForeignOpts) -> Foreign {
             gaps.push((a, a + g as u64));
         }
     };
-    let small_first = o.permute_sections && meta_bytes.len() + root.len() < 12000 && rng.chance(1, 3);
+    let small_first = !o.alias_leaf_offset && o.permute_sections && meta_bytes.len() + root.len() < 12000 && rng.chance(1, 3);
     let mut h = RHeader::default();
     let mut placed_meta_first = false;
     if small_first {
@@ -1005,7 +1071,7 @@ pub fn gen_foreign(rng: &mut Rng, o: &ForeignOpts) -> Foreign {
         file.extend_from_slice(&meta_bytes);
         placed_meta_first = true;
     }
-    if 16384 - file.len() - root.len() > 40 {
+    if 16384 - file.len() - root.len() > 40 && !o.alias_leaf_offset {
         pad(&mut file, rng, &mut gaps, 16);
     }
     h.root_offset = file.len() as u64;
@@ -1107,5 +1173,8 @@ pub fn gen_foreign_opts(rng: &mut Rng, codec: u8, max_entries: usize) -> Foreign
         leaf_entries: None,
         align_gzip_leaves: false,
         small_metadata: false,
+        mixed_dirs: rng.chance(1, 4),
+        alias_leaf_offset: rng.chance(1, 6),
+        regular: None,
     }
 }
